@@ -195,9 +195,9 @@ let run_model line table =
   match px with
   | None -> String.concat "\t" [pb; "PX=NONE"; "LI=-"; "LM=-"; "P2=-"; "LI2=-"; "LM2=-"; cn; "PXRAW=" ^ sx pxraw]
   | Some x ->
-    let (m1, is1) = load e true x in
+    let (m1, is1) = load e true true x in
     let p2 = print_model e true m1 in
-    let (l2, i2) = (match p2 with None -> ("-", "-") | Some x2 -> let (m2, is2) = load e true x2 in (smodel m2, sissues is2)) in
+    let (l2, i2) = (match p2 with None -> ("-", "-") | Some x2 -> let (m2, is2) = load e true true x2 in (smodel m2, sissues is2)) in
     String.concat "\t" [pb; "PX=" ^ sxml x; "LI=" ^ sissues is1; "LM=" ^ smodel m1; "P2=" ^ sx p2; "LI2=" ^ i2; "LM2=" ^ l2; cn;
                         "PXRAW=" ^ sx pxraw]
 
@@ -205,7 +205,7 @@ let run_doc line table =
   set_input line;
   let x = pxml () in
   let e = make_env table in
-  let (m1, is1) = load e true x in
+  let (m1, is1) = load e true true x in
   String.concat "\t" ["LI=" ^ sissues is1; "LM=" ^ smodel m1]
 
 let () =
